@@ -25,6 +25,10 @@ def scenarios(ctx: Ctx, res: Result):
     for sc in fam:
         res.count('conflict_family')
         yield sc
+    race = list(gc.loop_race_family())
+    for sc in (race if ctx.thorough else ctx.rng.sample(race, 120)):
+        res.count('loop_race_family')
+        yield sc
     for _ in range(4000 if ctx.thorough else 500):
         res.count('random_schedule')
         yield gc.scenario(ctx.rng)
@@ -79,7 +83,7 @@ def search(ctx: Ctx) -> Result:
 
 SPEC = PropSpec(
     prop='C04', translators=[], run=run, search=search,
-    rule='a racing-pair family (2 instances, one replicated run, a racing pair of inputs {update,halt,complete} x every order of '
+    rule='a loop-race family (one instance repeats a looping block while another leaves it; sampled delivery orders), a racing-pair family (2 instances, one replicated run, a racing pair of inputs {update,halt,complete} x every order of '
          'the pending passes/deliveries; sampled in quick, complete in thorough) plus seeded random schedules of 8-40 operations '
          'over {input, outgoing pass, deliver, re-delivery} for 2-3 instances and three pattern sets (halt condition, loops, '
          'optional, two patterns), each ended by healing; non-trivial = more than two messages crossed the wire',
